@@ -1,3 +1,319 @@
-/- C08 — property theorems only (helper lemmas live in `Rooc/Proofs`). -/
+/-
+C08 — Compiled linear models are well-formed; no guessed or non-finite constants.
+PROPERTY THEOREMS ONLY (helper lemmas live in `Rooc/Proofs/WF*.lean`).
+
+`Lin.linearizeWith m b d` is the executable port of `Linearizer::linearize` (diffed bit-exactly against the
+Rust by `./check C08` / `./check C01`): `m` the source model, `b` the bounds map and `d` the tightened domain
+produced by bound inference.  `WF.report m lm` is the decidable well-formedness predicate that the oracle runs
+on the IMPLEMENTATION's output; the theorems below say that the model's output satisfies each of its facets,
+for every input, over an arbitrary number type `α` (structural facets) and over `Ext K` (finiteness).
+
+Hypotheses on the input are decidable predicates that the front end guarantees
+(`Lin.DomainNodup`, `Lin.UsedKept`, `Lin.DeclaredIn`: the domain is an `IndexMap`, and bound tightening only
+changes variable *types*).
+-/
+import Rooc.Proofs.WFFinal
+import Rooc.Proofs.WFBounds
+import Rooc.Proofs.WFExamples
 namespace Rooc.Props.C08
+open Rooc Rooc.Lin Rooc.WFDedup Rooc.Lin.Examples
+
+variable {α : Type} [Arith α]
+
+/-! ### 1. the variable list is strictly sorted, hence duplicate-free -/
+
+/-- `lm.vars` is strictly increasing.  Rests on the state invariant "domain names are pairwise distinct",
+preserved by every action of the linearizer because `declareVariable` refuses an existing name. -/
+theorem vars_sorted_nodup {m : Model α} {b : BoundsMap α} {d : List (DomVar α)} {lm : LinModel α}
+    (hd : DomainNodup d = true) (h : linearizeWith m b d = .ok lm) :
+    (WF.report m lm).varsSortedUnique = true := by
+  obtain ⟨obj, s, hr, _, rfl⟩ := run_struct h
+  exact vars_sorted_of_nodup (hr.nodup ((WFList.noDup_iff _).mp hd))
+
+/-- … in particular it has no duplicates. -/
+theorem vars_nodup {m : Model α} {b : BoundsMap α} {d : List (DomVar α)} {lm : LinModel α}
+    (hd : DomainNodup d = true) (h : linearizeWith m b d = .ok lm) : lm.vars.Nodup :=
+  WFList.nodup_of_sortedStrict (vars_sorted_nodup hd h)
+
+/-- non-vacuity: `min x s.t. c1: x >= 1` satisfies the hypothesis and compiles (`Examples.exA_compiles`). -/
+example : ∃ lm, linearizeWith exA exAb exA.domain = .ok lm ∧ DomainNodup exA.domain = true ∧
+    (WF.report exA lm).varsSortedUnique = true ∧ lm.vars.Nodup :=
+  ⟨_, exA_compiles, exA_hyps.1, vars_sorted_nodup exA_hyps.1 exA_compiles, vars_nodup exA_hyps.1 exA_compiles⟩
+
+/-! ### 2. variables = domain keys; one coefficient per variable -/
+
+/-- every variable has a domain entry, every domain entry is a variable, and the domain keys are distinct. -/
+theorem vars_eq_domain_keys {m : Model α} {b : BoundsMap α} {d : List (DomVar α)} {lm : LinModel α}
+    (hd : DomainNodup d = true) (h : linearizeWith m b d = .ok lm) :
+    (WF.report m lm).varsEqDomainKeys = true := by
+  obtain ⟨obj, s, hr, _, rfl⟩ := run_struct h
+  exact vars_eq_keys_of_nodup (hr.nodup ((WFList.noDup_iff _).mp hd))
+
+/-- every row has exactly one coefficient per variable (`extract_coeffs` only overwrites positions). -/
+theorem row_lengths {m : Model α} {b : BoundsMap α} {d : List (DomVar α)} {lm : LinModel α}
+    (h : linearizeWith m b d = .ok lm) : (WF.report m lm).rowLengths = true := by
+  obtain ⟨obj, s, _, _, rfl⟩ := run_struct h
+  exact row_lengths_assemble m obj s
+
+/-- the objective has exactly one coefficient per variable. -/
+theorem objective_length {m : Model α} {b : BoundsMap α} {d : List (DomVar α)} {lm : LinModel α}
+    (h : linearizeWith m b d = .ok lm) : (WF.report m lm).objectiveLength = true := by
+  obtain ⟨obj, s, _, _, rfl⟩ := run_struct h
+  exact objective_length_assemble m obj s
+
+example : ∃ lm, linearizeWith exA exAb exA.domain = .ok lm ∧ (WF.report exA lm).varsEqDomainKeys = true ∧
+    (WF.report exA lm).rowLengths = true ∧ (WF.report exA lm).objectiveLength = true :=
+  ⟨_, exA_compiles, vars_eq_domain_keys exA_hyps.1 exA_compiles, row_lengths exA_compiles,
+    objective_length exA_compiles⟩
+
+/-! ### 3. no used source variable is dropped -/
+
+/-- every declared variable with a usage mark is in `lm.vars`: the domain only grows and usage marks are
+never reset. -/
+theorem source_vars_present {m : Model α} {b : BoundsMap α} {d : List (DomVar α)} {lm : LinModel α}
+    (hk : UsedKept m d = true) (h : linearizeWith m b d = .ok lm) :
+    (WF.report m lm).sourceVarsPresent = true := by
+  obtain ⟨obj, s, hr, _, rfl⟩ := run_struct h
+  exact source_vars_present_of_rel hr hk
+
+example : ∃ lm, linearizeWith exA exAb exA.domain = .ok lm ∧ UsedKept exA exA.domain = true ∧
+    (WF.report exA lm).sourceVarsPresent = true :=
+  ⟨_, exA_compiles, exA_hyps.2.1, source_vars_present exA_hyps.2.1 exA_compiles⟩
+
+/-! ### 4. row names -/
+
+/-- the non-empty row names of the output are pairwise distinct (the bounded candidate search of the
+de-duplication always finds a free `name__k`: pigeonhole, `WFDedup.exists_free`). -/
+theorem names_unique {m : Model α} {b : BoundsMap α} {d : List (DomVar α)} {lm : LinModel α}
+    (h : linearizeWith m b d = .ok lm) : (WF.report m lm).namesUnique = true := by
+  obtain ⟨obj, s, _, _, rfl⟩ := run_struct h
+  exact names_unique_assemble m obj s
+
+/-- every output row name is a name the user wrote, or `name__k` for such a name. -/
+theorem user_names_kept {m : Model α} {b : BoundsMap α} {d : List (DomVar α)} {lm : LinModel α}
+    (h : linearizeWith m b d = .ok lm) : (WF.report m lm).userNamesKept = true := by
+  obtain ⟨obj, s, _, hok, rfl⟩ := run_struct h
+  exact user_names_kept_of_ok hok
+
+example : ∃ lm, linearizeWith exA exAb exA.domain = .ok lm ∧ (WF.report exA lm).namesUnique = true ∧
+    (WF.report exA lm).userNamesKept = true :=
+  ⟨_, exA_compiles, names_unique exA_compiles, user_names_kept exA_compiles⟩
+
+/-- the de-duplication touches nothing but names; a changed name is `name__k` (`k ≥ 2`) for the name the
+row had, and is NOT a name any row had before (so it never equals a user-written name). -/
+theorem dedup_only_renames (rows : List (MidRow α)) :
+    List.Forall₂ (fun r o => o.lhs = r.lhs ∧ o.rhs = r.rhs ∧ o.cmp = r.cmp ∧
+      (o.name = r.name ∨ (r.name ≠ "" ∧ o.name ∉ nonEmptyNames rows ∧ ∃ k, o.name = r.name ++ "__" ++ toString (k + 2))))
+      rows (dedupNames rows) :=
+  dedupNames_rel rows
+
+/-- the first use of each user-written name is kept verbatim. -/
+theorem dedup_first_use_kept (pre post : List (MidRow α)) (r : MidRow α)
+    (hne : r.name ≠ "") (hfirst : ∀ q ∈ pre, q.name ≠ r.name) :
+    (dedupNames (pre ++ r :: post))[pre.length]? = some r :=
+  dedupNames_first_kept pre post r hne hfirst
+
+/-- after de-duplication the non-empty names are pairwise distinct, for every list of rows. -/
+theorem dedup_names_nodup (rows : List (MidRow α)) : (nonEmptyNames (dedupNames rows)).Nodup :=
+  dedupNames_nodup rows
+
+/-- non-vacuity of `dedup_first_use_kept`: rows named `a, a` — the first `a` is kept (the second becomes
+`a__2`, which `dedup_only_renames` / `dedup_names_nodup` describe). -/
+example : (dedupNames ([] ++ (⟨"a", [], Ext.fin 0, .le⟩ : MidRow (Ext Rat)) :: [⟨"a", [], Ext.fin 0, .le⟩]))[0]? =
+    some ⟨"a", [], Ext.fin 0, .le⟩ :=
+  dedup_first_use_kept [] _ _ (by decide) (by simp)
+
+/-! ### 5. auxiliaries never collide with user variables -/
+
+/-- every output variable is declared in the source or is a `$`-prefixed auxiliary. -/
+theorem aux_disjoint {m : Model α} {b : BoundsMap α} {d : List (DomVar α)} {lm : LinModel α}
+    (hdecl : DeclaredIn m d = true) (h : linearizeWith m b d = .ok lm) :
+    (WF.report m lm).auxDisjoint = true := by
+  obtain ⟨obj, s, hr, _, rfl⟩ := run_struct h
+  exact aux_disjoint_of_rel hr hdecl
+
+example : ∃ lm, linearizeWith exA exAb exA.domain = .ok lm ∧ DeclaredIn exA exA.domain = true ∧
+    (WF.report exA lm).auxDisjoint = true :=
+  ⟨_, exA_compiles, exA_hyps.2.2.1, aux_disjoint exA_hyps.2.2.1 exA_compiles⟩
+
+/-- `declare_variable` never shadows: asked to declare a name that is already in the domain (for instance a
+user variable literally called `$abs_0`) it fails with `VarAlreadyDeclared` and changes nothing. -/
+theorem declare_never_shadows (name : String) (ty : VarType α) (s : St α)
+    (h : name ∈ s.domain.map (·.name)) :
+    declareVariable name ty s = .error (.varAlreadyDeclared name) :=
+  declareVariable_existing name ty s h
+
+/-- concretely: a model that declares a variable `$abs_0` and needs the exact lowering of `|x|` does not
+compile — `VarAlreadyDeclared "$abs_0"` — rather than letting the auxiliary collide with the user's variable. -/
+theorem aux_name_taken_fails :
+    linearizeWith exD exDb exD.domain = .error (.varAlreadyDeclared "$abs_0") := exD_fails
+
+/-- the compiled domain is the input domain followed by auxiliaries — each `$`-prefixed, marked used, with a
+name different from every input name and from every other auxiliary — filtered to the used variables. -/
+theorem domain_is_input_plus_fresh_aux {m : Model α} {b : BoundsMap α} {d : List (DomVar α)} {lm : LinModel α}
+    (hd : DomainNodup d = true) (h : linearizeWith m b d = .ok lm) :
+    ∃ added : List (DomVar α),
+      lm.domain = (d ++ added).filter (fun v => lm.vars.contains v.name) ∧
+      (∀ v ∈ added, v.usage = 1 ∧ WF.isAuxName v.name = true ∧ v.name ∉ d.map (·.name)) ∧
+      (added.map (·.name)).Nodup := by
+  obtain ⟨obj, s, hr, _, rfl⟩ := run_struct h
+  obtain ⟨added, hdom, hadd⟩ := hr.grow
+  have hnd := hr.nodup ((WFList.noDup_iff _).mp hd)
+  have hnd' : (d.map (·.name) ++ added.map (·.name)).Nodup := by
+    have : domNames s = d.map (·.name) ++ added.map (·.name) := by
+      unfold domNames; rw [hdom]; simp [initSt]
+    rw [← this]; exact hnd
+  rw [List.nodup_append] at hnd'
+  refine ⟨added, ?_, ?_, hnd'.2.1⟩
+  · show s.domain.filter (fun v => (assemble m obj s).vars.contains v.name) = _
+    rw [hdom]; rfl
+  · intro v hv
+    refine ⟨(hadd v hv).1, (hadd v hv).2, ?_⟩
+    intro hin
+    exact hnd'.2.2 _ hin _ (List.mem_map.mpr ⟨v, hv, rfl⟩) rfl
+
+example : ∃ lm, linearizeWith exA exAb exA.domain = .ok lm ∧ ∃ added : List (DomVar (Ext Rat)),
+    lm.domain = (exA.domain ++ added).filter (fun v => lm.vars.contains v.name) :=
+  ⟨_, exA_compiles, (domain_is_input_plus_fresh_aux exA_hyps.1 exA_compiles).imp fun _ h => h.1⟩
+
+/-! ### all structural facets at once -/
+
+/-- every facet of the oracle's report except finiteness, for every number type. -/
+theorem report_ok_structural {m : Model α} {b : BoundsMap α} {d : List (DomVar α)} {lm : LinModel α}
+    (hd : DomainNodup d = true) (hk : UsedKept m d = true) (hdecl : DeclaredIn m d = true)
+    (h : linearizeWith m b d = .ok lm) :
+    (WF.report m lm).ok false = true := by
+  simp only [WF.Report.ok, Bool.and_eq_true, Bool.or_eq_true, Bool.not_false, or_true, and_true]
+  exact ⟨⟨⟨⟨⟨⟨⟨vars_sorted_nodup hd h, vars_eq_domain_keys hd h⟩, row_lengths h⟩, objective_length h⟩,
+    names_unique h⟩, source_vars_present hk h⟩, user_names_kept h⟩, aux_disjoint hdecl h⟩
+
+example : ∃ lm, linearizeWith exA exAb exA.domain = .ok lm ∧ (WF.report exA lm).ok false = true :=
+  ⟨_, exA_compiles, report_ok_structural exA_hyps.1 exA_hyps.2.1 exA_hyps.2.2.1 exA_compiles⟩
+
+/-! ### 6. finiteness of every emitted constant -/
+
+/-- `finite_out` holds when the source has no non-finite literal: every coefficient, right-hand side and the
+offset of the compiled model are finite.  No hypothesis on the bounds map is needed: every big-M constant is
+built from derived bounds only AFTER the linearizer has checked them finite (otherwise it fails with
+`missingFiniteBounds`), a division by a zero literal is rejected, and in `Ext K` finite ∘ finite is finite for
+`+ − ×`, `÷` by a non-zero, `max`/`min` of a non-empty list (`closed_isFinite`).  `K` is ANY `ExactField`
+(`Rat`, or an ordered field through `Rooc/Proofs/Field.lean`); the hypothesis is genuinely needed, see
+`finite_out_counterexample`. -/
+theorem finite_out_partial {K : Type} [ExactField K] {m : Model (Ext K)} {b : BoundsMap (Ext K)}
+    {d : List (DomVar (Ext K))} {lm : LinModel (Ext K)}
+    (hfin : FiniteLits m = true) (h : linearizeWith m b d = .ok lm) :
+    (WF.report m lm).finite = true := by
+  have hp := closed_isFinite K
+  simp only [FiniteLits, Bool.and_eq_true] at hfin
+  obtain ⟨obj, s, _, hok, hobj, rfl⟩ :=
+    linearizeWith_run (N := fun _ => True) trivial hp (simpOK_of_closed hp) hfin.1
+      (stOK_init_of_finiteLits b d (by simp only [FiniteLits, Bool.and_eq_true]; exact hfin)) h
+  exact finite_of_ok hp hok hobj
+
+example : ∃ lm, linearizeWith exA exAb exA.domain = .ok lm ∧ FiniteLits exA = true ∧
+    (WF.report exA lm).finite = true :=
+  ⟨_, exA_compiles, exA_hyps.2.2.2, finite_out_partial exA_hyps.2.2.2 exA_compiles⟩
+
+/-- the hypothesis `FiniteLits` cannot be dropped (confirmed defect of rooc, known finding
+`C08-infinity-literal`): `min x s.t. Infinity * x >= 1` satisfies every other hypothesis, compiles, and its
+single row has the coefficient `+inf` (and the right-hand side `NaN`). -/
+theorem finite_out_counterexample :
+    ∃ (m : Model (Ext Rat)) (b : BoundsMap (Ext Rat)) (d : List (DomVar (Ext Rat))) (lm : LinModel (Ext Rat)),
+      DomainNodup d = true ∧ UsedKept m d = true ∧ DeclaredIn m d = true ∧ FiniteLits m = false ∧
+      linearizeWith m b d = .ok lm ∧ (WF.report m lm).finite = false ∧
+      lm.rows.map (·.coeffs) = [[Ext.pinf]] :=
+  ⟨exB, exAb, exB.domain, _, by decide, by decide, by decide,
+    by simp [FiniteLits, exB, infx, allLits, Arith.isFinite, Ext.isFinite], exB_compiles, exB_not_finite, by decide⟩
+
+/-- with all hypotheses, the whole report (finiteness included) is green. -/
+theorem report_ok_partial {K : Type} [ExactField K] {m : Model (Ext K)} {b : BoundsMap (Ext K)}
+    {d : List (DomVar (Ext K))} {lm : LinModel (Ext K)}
+    (hd : DomainNodup d = true) (hk : UsedKept m d = true) (hdecl : DeclaredIn m d = true)
+    (hfin : FiniteLits m = true) (h : linearizeWith m b d = .ok lm) :
+    (WF.report m lm).ok true = true := by
+  have h1 := report_ok_structural hd hk hdecl h
+  have h2 := finite_out_partial hfin h
+  simp only [WF.Report.ok, Bool.and_eq_true, Bool.or_eq_true, Bool.not_false, or_true, and_true] at h1
+  simp only [WF.Report.ok, Bool.and_eq_true, Bool.or_eq_true, Bool.not_true, Bool.false_eq_true, or_false]
+  exact ⟨⟨⟨⟨⟨⟨⟨⟨h1.1.1.1.1.1.1.1, h1.1.1.1.1.1.1.2⟩, h1.1.1.1.1.1.2⟩, h1.1.1.1.1.2⟩, h2⟩, h1.1.1.1.2⟩,
+    h1.1.1.2⟩, h1.1.2⟩, h1.2⟩
+
+example : ∃ lm, linearizeWith exA exAb exA.domain = .ok lm ∧ (WF.report exA lm).ok true = true :=
+  ⟨_, exA_compiles, report_ok_partial exA_hyps.1 exA_hyps.2.1 exA_hyps.2.2.1 exA_hyps.2.2.2 exA_compiles⟩
+
+/-! ### 7. the missing-bounds error names the unbounded variables -/
+
+/-- the payload of `MissingFiniteBounds` — `varsWithoutFiniteBounds e bm` for the expression `e` being
+lowered and the current bounds map `bm` — is strictly sorted (hence duplicate-free) and consists EXACTLY of
+the variables of `e` whose lower or upper bound in the map is not finite (a variable without an entry is
+unbounded). -/
+theorem missing_bounds_payload_spec (e : Exp α) (bm : BoundsMap α) :
+    WF.sortedStrict (varsWithoutFiniteBounds e bm) = true ∧
+    ∀ x, x ∈ varsWithoutFiniteBounds e bm ↔
+      x ∈ expVars e ∧
+        ¬ (Arith.isFinite (varBounds bm x).lower = true ∧ Arith.isFinite (varBounds bm x).upper = true) :=
+  ⟨varsWithoutFiniteBounds_sorted e bm, fun _ => mem_varsWithoutFiniteBounds⟩
+
+/-- `|e|` in a context that needs its exact value, with an operand of unknown sign whose derived bound is not
+finite: the lowering fails with `MissingFiniteBounds (varsWithoutFiniteBounds e bounds)` — before anything
+is emitted, so no big-M constant is guessed. -/
+theorem missing_bounds_error_names_unbounded (e : Exp α) (req : Req) (s : St α)
+    (hlo : Arith.ge (boundsOf s.bounds e).lower Arith.zero = false)
+    (hup : Arith.le (boundsOf s.bounds e).upper Arith.zero = false)
+    (hreq : req ≠ .lower)
+    (hinf : (Arith.isFinite (boundsOf s.bounds e).lower && Arith.isFinite (boundsOf s.bounds e).upper) = false) :
+    linExp (.abs e) req s = .error (.missingFiniteBounds (varsWithoutFiniteBounds e s.bounds)) :=
+  abs_missing_bounds e req s hlo hup hreq hinf
+
+/-- the same for `min` / `max` with at least two non-dominated operands outside the cheap one-sided context
+(`max` under `≤`/minimise, `min` under `≥`/maximise): if a bound the exact selector encoding needs is not
+finite, the lowering fails with `MissingFiniteBounds` naming the unbounded variables of the retained
+`min`/`max`. -/
+theorem missing_bounds_error_names_unbounded_extreme (kind : ExtKind) (es : List (Exp α)) (req : Req) (s : St α)
+    (hne : es.isEmpty = false)
+    (h0 : (((extFlags kind es s.bounds).filter id).length == 0) = false)
+    (h1 : (((extFlags kind es s.bounds).filter id).length == 1) = false)
+    (hside : ((kind == .max && req == .lower) || (kind == .min && req == .higher)) = false)
+    (hfin : extHasFinite kind es s.bounds = false) :
+    linExtreme kind es req s =
+      .error (.missingFiniteBounds (varsWithoutFiniteBounds (extRetained kind es s.bounds) s.bounds)) :=
+  extreme_missing_bounds kind es req s hne h0 h1 hside hfin
+
+/-- non-vacuity, end to end: `min x s.t. |x| >= 1` with `x` a free real does not compile; the error is
+`MissingFiniteBounds ["x"]`. -/
+theorem missing_bounds_example :
+    linearizeWith exC exCb exC.domain = .error (.missingFiniteBounds ["x"]) := exC_fails
+
+/-- GLOBAL form.  Whenever compilation fails with `MissingFiniteBounds vs` — raised by an `abs`, `min` or
+`max` at any depth, in the objective, in a source constraint or in a constraint the linearizer generated —
+`vs` is strictly sorted and there are an expression `e` (the one being lowered) and a bounds map `bm` (the one
+of that moment, equal to the input map `b` on every variable of the input domain) such that `vs` consists
+EXACTLY of the variables of `e` whose lower or upper bound in `bm` is not finite. -/
+theorem missing_bounds_error_global {m : Model α} {b : BoundsMap α} {d : List (DomVar α)} {vs : List String}
+    (h : linearizeWith m b d = .error (.missingFiniteBounds vs)) :
+    WF.sortedStrict vs = true ∧
+    ∃ (e : Exp α) (bm : BoundsMap α),
+      (∀ x ∈ d.map (·.name), varBounds bm x = varBounds b x) ∧
+      ∀ x, x ∈ vs ↔ x ∈ expVars e ∧
+        ¬ (Arith.isFinite (varBounds bm x).lower = true ∧ Arith.isFinite (varBounds bm x).upper = true) := by
+  obtain ⟨e, bm, rfl, hbm⟩ := missing_bounds_global h
+  refine ⟨varsWithoutFiniteBounds_sorted e bm, e, bm, ?_, fun _ => mem_varsWithoutFiniteBounds⟩
+  intro x hx
+  unfold varBounds
+  rw [hbm x hx]
+
+/-- in particular: every SOURCE variable the error names really is unbounded in the bounds map the
+linearizer was given — the error never blames a variable whose derived range is finite. -/
+theorem missing_bounds_error_blames_unbounded {m : Model α} {b : BoundsMap α} {d : List (DomVar α)}
+    {vs : List String} (h : linearizeWith m b d = .error (.missingFiniteBounds vs)) :
+    ∀ x ∈ vs, x ∈ d.map (·.name) →
+      ¬ (Arith.isFinite (varBounds b x).lower = true ∧ Arith.isFinite (varBounds b x).upper = true) := by
+  obtain ⟨_, e, bm, hbm, hmem⟩ := missing_bounds_error_global h
+  intro x hx hd
+  rw [← hbm x hd]
+  exact ((hmem x).mp hx).2
+
+example : ¬ (Arith.isFinite (varBounds exCb "x").lower = true ∧ Arith.isFinite (varBounds exCb "x").upper = true) :=
+  missing_bounds_error_blames_unbounded missing_bounds_example "x" (by simp) (by decide)
+
 end Rooc.Props.C08
